@@ -112,6 +112,9 @@ func (e *CrashEngine) Generate(prop, tier string, seed uint64, run int) *sim.Pla
 	}
 	tgt := add(target, 0)
 	fill(tgt)
+	if target == "pull" && r.Chance(0.5) {
+		tgt.K = "pull-api" // the one-call API (identity.Pull + bug.Pull, RepoCache.Pull): fetch and merge in one interrupted action
+	}
 	if target == "edit" && r.Chance(0.5) {
 		// a staging area with two authors taking turns is written as several packs under one ref
 		// update: the crash points between the packs are the interesting ones
